@@ -124,6 +124,39 @@ CHECKS.update({
     ),
 })
 
+CHECKS.update({
+    "C07": dict(
+        text="One probe statement text (7 forms: the colliding names as argument, array name, array index, loop count, macro argument) is "
+             "placed in every set of 2-3 scopes out of 6 (main body before/after the macros, macro whose parameter shadows the name, macro with "
+             "other parameters, loop, parallel block) x 5 header bindings of the name x both textual orders; for each program and each of its "
+             "single-deletion sub-programs the named references and the denotation read from the IR must equal the reference model's (also after "
+             "expand_macros and fill_in_let, under both readings of a macro call) - so a statement's meaning cannot depend on unrelated statements.",
+        note="anonymous gates; calls before a later macro definition are outside the space (the builder rejects them)",
+        technique="exhaustive enumeration of scope placements x bindings; parser/builder vs reference lexical-scoping model (differential over deletions)",
+        ref="5/C07",
+    ),
+    "C11": dict(
+        text="Explicit-state exploration of call histories: for a feature-rich executable program and its valid single-site deviations, every "
+             "history of length <= 2 (3) over 13 library calls (all passes, unit timing, used qubits, generation, emulation, output parsing, "
+             "stretched/idle gate tables) is applied to ONE shared circuit object; after every call a deep structural snapshot of everything "
+             "reachable from the circuit and the caller's gate table (attributes, containers, identities) must be unchanged and the result must "
+             "equal that of the same call on a freshly parsed copy.",
+        note="snapshot covers instance attributes of jaqalpaq objects, containers and numpy arrays; callables by identity; numpy seeded per call",
+        technique="explicit-state search over call histories on one shared object; invariant = deep snapshot + fresh-copy result",
+        ref="5/C11",
+    ),
+    "C20": dict(
+        text="A pool of N = 800 (2000) parsed programs: ALL N^2 ordered pairs, plus every single-token mutant of every pool program from a "
+             "mutation alphabet (gate name, number, index, counts, block kind, subcircuit, alias bound/source, let value, register size, macro "
+             "parameters, usepulses, statement deleted/duplicated/swapped). ==/!= must be reflexive, symmetric and consistent; a circuit equals "
+             "the re-parse of its text; equal circuits must have identical declarations and meaning per the reference model, hence every "
+             "meaning-changing mutant must compare unequal both ways.",
+        note="declarations/meaning judged by the reference model on the ASTs (numbers by value, slice defaults explicit); equal-meaning mutants carry no obligation",
+        technique="exhaustive pairwise comparison over a program pool + exhaustive single-token mutants; __eq__ vs reference meaning",
+        ref="5/C20",
+    ),
+})
+
 NOT_YET = {}
 
 
